@@ -75,9 +75,15 @@ def new_model():
     return vlib.Model('C02', oracles={'sha384': sha384, 'aes_enc': aes_enc, 'aes_dec': aes_dec_oracle})
 
 
+SAVE_TIMEOUTS = [0]
+ORIG_MAXB = {m: m.MAX_BLOB_SIZE for m in CONFIG_MODULES}     # what the source tree itself says
+
+
 def set_maxb(v):
+    """configure MAX_BLOB_SIZE in every module that imported it; None / REAL_MAXB = the tree's own values (the
+    true 2 MiB runs are judged against the property's 2^21, not against whatever the tree defines)"""
     for m in CONFIG_MODULES:
-        m.MAX_BLOB_SIZE = v
+        m.MAX_BLOB_SIZE = ORIG_MAXB[m] if v is None or v == REAL_MAXB else v
 
 
 def config_surface():
@@ -268,7 +274,14 @@ async def impl_create(loop, case, big=False):
             await env.storage.save_downloaded_file(sd2.stream_hash, 'saved.bin', env.dir, 0.0)
             out = os.path.join(env.dir, 'saved.bin')
             obs['save_name'] = raw['save_name'] = ms.suggested_file_name
-            await ms._save_file(out)
+            # a blob that is missing locally would make the downloader wait for peers: bound it
+            if SAVE_TIMEOUTS[0] >= 3:
+                raise asyncio.TimeoutError('save skipped after 3 time-outs')
+            try:
+                await asyncio.wait_for(ms._save_file(out), 60 if big else 5)
+            except asyncio.TimeoutError:
+                SAVE_TIMEOUTS[0] += 1
+                raise
             saved = open(out, 'rb').read()
             raw['saved'] = saved
             obs['saved'] = hashlib.sha384(saved).hexdigest() if big else saved.hex()
